@@ -572,13 +572,23 @@ def _texts(rng, n, prop="C15"):
             t = "%s %s" % ((a, b) if rng.random() < 0.6 else (b, a))
             if rng.random() < 0.3:
                 t = rng.choice(["tomorrow", "at", "friday"]) + " " + t
-        elif r < 0.84:
+        elif r < 0.8 + 0.06:
+            # the same joiner / absorber word leading the text and recurring between two
+            # values (a bullet "- 10.5. - 12.5.", "to 5 to 6"): the first occurrence of a
+            # pattern id is not the one a rule needs
+            j = rng.choice(["-", "to", "und", "and", "bis", "at", "on", "am", "from"])
+            v = rng.choice([workload.CLOCKS, workload.DATES, workload.DOMS, workload.DOWS])
+            t = "%s %s %s %s" % (j, rng.choice(v), j, rng.choice(v))
+            if rng.random() < 0.3:
+                t = "%s %s %s %s %s" % (j, rng.choice(workload.DOWS), rng.choice(v), j,
+                                        rng.choice(v))
+        elif r < 0.88 + 0.0:
             # two different expressions of the same kind side by side (one pattern matching
             # twice in one sequence; a production may decline the first and accept the second)
             g = rng.choice([workload.CLOCKS, workload.DURS, workload.DATES, workload.DOMS,
                             workload.PODS])
             t = "%s %s" % (rng.choice(g), rng.choice(g))
-        elif r < 0.88:
+        elif r < 0.91:
             # the same sub-expression twice: equal values at different offsets
             a = rng.choice(workload.DURS + workload.CLOCKS + workload.DOMS + workload.PODS
                            + workload.DOWS)
